@@ -59,7 +59,9 @@ Cre(k, t, r) == [op |-> "Create", kind |-> k, to |-> t, route |-> r]
 B1Prefixes == << <<>>,
                <<Sub("s0", "t0", "valid")>>,
                <<Sub("s0", "t0", "valid2"), Cre("vest1", "t0", "top")>>,
-               <<Sub("s1", "s2", "valid"), Sub("s0", "s1", "valid")>> >>
+               <<Sub("s1", "s2", "valid"), Sub("s0", "s1", "valid")>>,
+               (* an over-long account containing t0 was submitted: t0 must still be unproven, provable, not vestable *)
+               <<Sub("s0", "t0", "L_ts_s")>> >>
 B1 == LET ops == SetToSeq(Ops) IN
       [i \in 1..(Len(B1Prefixes) * Len(ops)) |->
           [id |-> i, ops |-> B1Prefixes[((i - 1) \div Len(ops)) + 1] \o <<ops[((i - 1) % Len(ops)) + 1]>>]]
